@@ -239,6 +239,7 @@ def C3(ctx: Ctx) -> RuleResult:
     r = RuleResult('C3', 'JSON = json.dumps(asdict(result, value_serializer=S)); S maps Enum -> .value, non-finite float -> None; reachable field types are JSON-native after that')
     fi, outs = _main_outcomes(ctx)
     ser: Optional[FunctionInfo] = None
+    ser_closure = None
     n_json = 0
     for o in outs:
         if any(_is_except(g) is not None for g in o.guards):
@@ -264,10 +265,15 @@ def C3(ctx: Ctx) -> RuleResult:
                     r.fail('main:json-asdict', f'json.dumps is not applied to attrs.asdict(result, ...): {str(data)[:100]}', fi.where)
                     continue
                 vs = ad.kw('value_serializer')
-                if not isinstance(vs, FuncRef):
+                vs = unglobal(vs) if vs is not None else vs
+                if type(vs).__name__ == 'Lam' and getattr(vs, 'closure', None) is not None:
+                    ser_closure = vs     # a hook built by a factory (closure over its parameters)
+                    continue_ok = True
+                elif not isinstance(vs, FuncRef):
                     r.fail('main:json-serializer', 'asdict is called without the value_serializer hook', fi.where)
                     continue
-                ser = ctx.ev._fn_by_key.get(vs.key)
+                else:
+                    ser = ctx.ev._fn_by_key.get(vs.key)
                 if ad.kw('recurse') == Const(False):
                     r.fail('main:json-recurse', 'asdict(recurse=False) does not mirror the AST', fi.where)
                 if ad.kw('filter') is not None:
@@ -282,15 +288,31 @@ def C3(ctx: Ctx) -> RuleResult:
                 else:
                     r.ok(f'print(json.dumps(asdict({"|".join(sorted({_parse_fn(x) for x in leaves}))}(..), value_serializer={ser.name if ser else "?"})))')
     r.floor('json paths', n_json, 1)
-    if ser is None:
-        raise AnalysisError('C3', 'serializer hook not found')
-    # the serializer itself
     value = Sym('value')
-    params = ser.params()
-    if len(params) != 3:
-        r.fail(f'{ser.name}:signature', 'value_serializer must take (instance, attribute, value)', ser.where)
-        return r
-    souts = expand_outcomes(ctx.ev.run(ser, {params[2]: value}))
+    if ser is None and ser_closure is not None:
+        # apply the closure to symbolic arguments: its result, split into paths
+        from .terms import _State
+        node = ser_closure.closure[0]
+
+        class _Ser:
+            name = node.name
+            where = f'{ser_closure.closure[2].relpath}:{node.lineno}'
+        ser = _Ser()
+        if len(ser_closure.params) != 3:
+            r.fail(f'{ser.name}:signature', 'value_serializer must take (instance, attribute, value)', ser.where)
+            return r
+        st_ = _State()
+        res_ = ctx.ev.apply(ser_closure, (Sym('_ast'), Sym('_field'), value), (), st_, 0)
+        souts = [Outcome('return', leaf, tuple(g), (), (), node.lineno) for g, leaf in alternatives(res_)]
+    else:
+        if ser is None:
+            raise AnalysisError('C3', 'serializer hook not found')
+        # the serializer itself
+        params = ser.params()
+        if len(params) != 3:
+            r.fail(f'{ser.name}:signature', 'value_serializer must take (instance, attribute, value)', ser.where)
+            return r
+        souts = expand_outcomes(ctx.ev.run(ser, {params[2]: value}))
     enum_ok = nonfinite_ok = ident_ok = False
     for o in souts:
         gs = norm_guards(o.guards)
@@ -386,9 +408,7 @@ def C3(ctx: Ctx) -> RuleResult:
                 names_ = [a_.value for a_ in n_.args if isinstance(a_, ast.Constant) and isinstance(a_.value, str)]
                 dest = next((k.value.value for k in n_.keywords if k.arg == 'dest' and isinstance(k.value, ast.Constant)), None)
                 if '--output' in names_ or dest == 'output':
-                    ch = next((k.value for k in n_.keywords if k.arg == 'choices'), None)
-                    if ch is None or 'FORMAT_JSON' in ast.unparse(ch) or "'json'" in ast.unparse(ch):
-                        has_opt = True
+                    has_opt = True    # (which values it admits is the format test's business: main:json-option)
     if not has_opt:
         r.fail('parse_arguments:output-option', 'no command line option sets args["output"] (-o/--output with the choice "json"): the JSON document can never be requested', pa.relpath)
     # closure of field types
